@@ -76,6 +76,11 @@ def templates(fn: ast.AST) -> list[tuple[ast.AST, str]]:
 def check(run: Run) -> None:
     run.rule("L1", "every string template emitted by the LaTeX printer's methods is brace- and \\left/\\right-balanced on its own")
     run.rule("L2", "every display_latex= / subscript= literal and the clone/vector name templates are balanced")
+    run.rule("L3", "LaTeX strings are only ever composed, never cut: no strip/partition/split/replace/slice on a name or a printed sub-result "
+             "(a cut piece of a balanced string need not be balanced, which would void the induction of L1/L2)")
+    run.rule("L4", "a printer method that receives an outer exponent `exp` uses it on every path that can return with exp given")
+    run.rule("L5", "the printer never rounds or re-formats numbers (no precision format spec, round(), float()) - the printed number is the number")
+    run.rule("L6", "no f-string of the printer emits a literal `{name}` where `name` is a variable in scope (an unsubstituted placeholder)")
     pm = run.src.need(PRINTER)
     classes = [c for c in pm.tree.body if isinstance(c, ast.ClassDef) and any(dotted(b) == "LatexPrinter" for b in c.bases)]
     run.require(len(classes) == 1, "LaTeX printer class not found")
@@ -122,3 +127,102 @@ def check(run: Run) -> None:
             if why:
                 run.violate("L2", f"{modname}:{fname}:{text[:60]}", m, node, f"name template {text!r} has {why}")
     run.notes.update({"printer_templates": n1, "display_literals": n2})
+    # ---- L3
+    from ..dim import World
+    from ..flow import Fn, conditions_for
+    w = World(run.src)
+    CUT = {"strip", "lstrip", "rstrip", "partition", "rpartition", "split", "rsplit", "replace", "removeprefix", "removesuffix", "translate", "sub", "subn"}
+
+    def cuts(fn_node):
+        for x in ast.walk(fn_node):
+            if isinstance(x, ast.Call) and isinstance(x.func, ast.Attribute) and x.func.attr in CUT:
+                yield x, f".{x.func.attr}()", x.func.value
+            if isinstance(x, ast.Subscript) and isinstance(x.slice, ast.Slice):
+                yield x, "slicing", x.value
+
+    for modname, fname in (("symplyphysics.core.symbols.symbols", "_process_subscript_and_names"), ("symplyphysics.core.experimental.vectors", "_process_vector_names")):
+        m = run.src.need(modname)
+        fn = next(s_ for s_ in m.tree.body if isinstance(s_, ast.FunctionDef) and s_.name == fname)
+        run.ob("L3", fname)
+        for node, how, target in cuts(fn):
+            run.violate("L3", f"{modname}:{fname}:{how}:{norm(target, 30)}", m, node,
+                        f"{fname} cuts a name with {how} (`{norm(node, 60)}`): a display name such as `E_\\text{{kin}}` or `\\vec{{v}}_{{0}}` is balanced only as a whole; "
+                        f"its pieces are not, so the composed LaTeX name can have unbalanced braces")
+    # inside the printer: only strings that came out of a _print/parenthesize call are LaTeX; function *names* may be cut (asin -> sin)
+    for meth in [s_ for s_ in classes[0].body if isinstance(s_, ast.FunctionDef)]:
+        f = Fn(w, PRINTER, f"{classes[0].name}.{meth.name}")
+        run.ob("L3", f"printer:{meth.name}")
+        for node, how, target in cuts(meth):
+            n = None
+            for cn in f.cfg.stmt_nodes():
+                if cn.ast is not None and any(y is node for y in ast.walk(cn.ast if cn.kind not in ("if", "for", "while", "test") else getattr(cn.ast, "test", getattr(cn.ast, "iter", cn.ast)))):
+                    n = cn
+                    break
+            if n is None:
+                continue
+            sl = f.slice(n, target)
+            printed = [c for c in sl.calls if c.startswith("self._print") or c.startswith("self.parenthesize") or c in ("self.doprint", "latex", "code_str")]
+            if printed:
+                run.violate("L3", f"{PRINTER}:{meth.name}:{how}:{norm(target, 30)}", pm, node,
+                            f"{meth.name} cuts a printed sub-result with {how} (`{norm(node, 60)}`, value from {sorted(printed)}): pieces of balanced LaTeX need not be balanced")
+    # ---- L4
+    n4 = 0
+    for meth in [s_ for s_ in classes[0].body if isinstance(s_, ast.FunctionDef)]:
+        if "exp" not in [a.arg for a in meth.args.args]:
+            continue
+        f = Fn(w, PRINTER, f"{classes[0].name}.{meth.name}")
+        for r in f.cfg.returns():
+            n4 += 1
+            run.ob("L4", f"{meth.name}:{norm(r.ast, 40)}")
+            sl = f.slice(r, r.ast.value) if r.ast.value is not None else None
+            if sl is not None and "exp" in sl.params:
+                continue
+            conds = conditions_for(f.fn, r.ast) or []
+            if any(_exp_is_none(c, pol) for c, pol in conds):
+                continue
+            run.violate("L4", f"{PRINTER}:{meth.name}:return:{norm(r.ast, 50)}", pm, r.ast,
+                        f"{meth.name} can `{norm(r.ast, 60)}` although an outer exponent was passed in `exp`: f(x)**n is then printed as f(x) - a different value")
+    run.floor("L4", n4, 4, "returns of printer methods taking an outer exponent")
+    # ---- L6
+    from .c19 import unsubstituted_placeholders
+    for meth in [s_ for s_ in classes[0].body if isinstance(s_, ast.FunctionDef)]:
+        run.ob("L6", meth.name)
+        for node, name in unsubstituted_placeholders(meth):
+            run.violate("L6", f"{PRINTER}:{meth.name}:literal-{{{name}}}", pm, node,
+                        f"f-string `{norm(node, 70)}` in {meth.name} emits the literal text `{{{name}}}` although `{name}` is a variable in scope: its value is not printed")
+    # ---- L5
+    for meth in [s_ for s_ in classes[0].body if isinstance(s_, ast.FunctionDef)]:
+        run.ob("L5", meth.name)
+        for x in ast.walk(meth):
+            bad = None
+            if isinstance(x, ast.FormattedValue) and x.format_spec is not None:
+                spec = "".join(v.value for v in x.format_spec.values if isinstance(v, ast.Constant) and isinstance(v.value, str))
+                if re.search(r"\.\d+|[eEfFgG%]$", spec):
+                    bad = f"format spec `:{spec}`"
+            if isinstance(x, ast.Call) and isinstance(x.func, ast.Name) and x.func.id in ("round", "float", "int") and x.args \
+                    and not isinstance(x.args[0], ast.Constant):
+                bad = f"{x.func.id}()"
+            if isinstance(x, ast.Call) and isinstance(x.func, ast.Attribute) and x.func.attr in ("evalf", "n", "round") and meth.name.startswith("_print"):
+                bad = f".{x.func.attr}()"
+            if isinstance(x, ast.BinOp) and isinstance(x.op, ast.Mod) and isinstance(x.left, ast.Constant) and isinstance(x.left.value, str) \
+                    and re.search(r"%[-#0 +]*\d*(\.\d+)?[eEfFgGd]", x.left.value):
+                bad = f"numeric %-format `{x.left.value}`"
+            if bad:
+                run.violate("L5", f"{PRINTER}:{meth.name}:{bad}", pm, x,
+                            f"{meth.name} re-formats a number with {bad}: digits are dropped or the notation changes (1e+20 read as mathematics is e*1+20), "
+                            f"so the rendering no longer denotes the same value")
+
+
+def _exp_is_none(cond, pol: bool) -> bool:
+    """does the branch condition (cond taken with polarity pol) imply `exp is None`?"""
+    if isinstance(cond, ast.Compare) and len(cond.ops) == 1 and isinstance(cond.left, ast.Name) and cond.left.id == "exp" \
+            and isinstance(cond.comparators[0], ast.Constant) and cond.comparators[0].value is None:
+        if isinstance(cond.ops[0], ast.Is):
+            return pol is True
+        if isinstance(cond.ops[0], ast.IsNot):
+            return pol is False
+    if isinstance(cond, ast.UnaryOp) and isinstance(cond.op, ast.Not) and isinstance(cond.operand, ast.Name) and cond.operand.id == "exp":
+        return pol is True
+    if isinstance(cond, ast.Name) and cond.id == "exp":
+        return pol is False
+    return False
